@@ -14,6 +14,8 @@ Driver for C16 (trace validation).  Input, one scenario per line:
 -/
 import DropshotModel.Proto
 import DropshotModel.Lifecycle
+import DropshotModel.Config
+import DropshotModel.SchemaJson
 
 open Dropshot Dropshot.Proto Dropshot.Lifecycle
 
@@ -172,10 +174,66 @@ def out (id : String) (agree : Bool) (spec : String) (cls known model : String) 
 def bad (id why : String) : String :=
   s!"{id} agree=0 spec=na class=bad-line known=- model={why}"
 
+/-! ### Configuration lines -/
+
+def cfgAddrs : List String := ["127.0.0.1:0", "0.0.0.0:8080", "[::1]:443", "192.168.1.20:65535", "[::]:12220"]
+def cfgValidAddr (s : String) : Bool := cfgAddrs.contains s
+
+def hexToStr (h : String) : Option String :=
+  (unhex h).bind fun b => String.fromUTF8? (ByteArray.mk b.toArray)
+
+def encHdrs (hs : List String) : String :=
+  if hs.isEmpty then "-" else ",".intercalate (hs.map fun h => "s" ++ hex h.toUTF8.toList)
+
+def decHdrs (s : String) : Option (List String) :=
+  if s == "-" then some [] else (s.splitOn ",").mapM fun t => hexToStr (tail1 t)
+
+def cfgModeName : Mode → String | .detached => "detached" | .cancel => "cancel"
+
+def showCfg : Option Config.Cfg → String
+  | none => "err"
+  | some c => s!"ok {hex c.bind.toUTF8.toList} {c.maxBytes} {cfgModeName c.mode} {encHdrs c.logHeaders}"
+
+def handleCf (id textH : String) (obs : List String) : String :=
+  match (unhex textH).bind Schema.parseJsonBytes with
+  | none => s!"{id} agree=0 spec=na class=bad-line known=- model=json"
+  | some j =>
+    let m := showCfg (Config.parse cfgValidAddr j)
+    let got := " ".intercalate obs
+    -- the property's clause, from the flat key list: a configuration that names one of the two
+    -- modes (once) runs under that mode, one that names none runs detached
+    let named : Option (List Schema.J) := match j with
+      | .obj kvs => some ((kvs.filter fun kv => kv.1 == "default_handler_task_mode").map (·.2))
+      | _ => none
+    let spec : String := match named, obs with
+      | some [], "ok" :: _ :: _ :: mode :: _ => b2s (mode == "detached")
+      | some [.str "cancel-on-disconnect"], "ok" :: _ :: _ :: mode :: _ => b2s (mode == "cancel")
+      | some [.str "detached"], "ok" :: _ :: _ :: mode :: _ => b2s (mode == "detached")
+      | _, _ => "na"
+    let cls := match named with
+      | none => "cf-not-an-object"
+      | some vs => s!"cf-{if got == "err" then "err" else "ok"}-mode{vs.length}"
+    s!"{id} agree={b2s (m == got)} spec={spec} class={cls} known=- model={m}"
+
+def handleCs (id bindH maxS modeS hdrsS : String) (obs : List String) : String :=
+  match hexToStr bindH, maxS.toNat?, parseMode modeS, decHdrs hdrsS, obs with
+  | some bind, some mx, some mode, some hs, [textH] =>
+    let c : Config.Cfg := { bind := bind, maxBytes := mx, mode := mode, logHeaders := hs }
+    match (unhex textH).bind Schema.parseJsonBytes with
+    | none => s!"{id} agree=0 spec=0 class=cs known=- model=unparsable"
+    | some j =>
+      let m := Config.serialize c
+      -- what was written out reads back as the same configuration
+      let back := Config.parse cfgValidAddr j == some c
+      s!"{id} agree={b2s (Schema.J.beq m j)} spec={b2s back} class=cs-{modeS} known=- model={m.print}"
+  | _, _, _, _, _ => s!"{id} agree=0 spec=na class=bad-line known=- model=parse"
+
 def handle (line : String) : String :=
   let fs := fields line
   let (inp, obs) := splitAt "=>" fs
   match inp with
+  | ["cf", id, textH] => handleCf id textH obs
+  | ["cs", id, bindH, maxS, modeS, hdrsS] => handleCs id bindH maxS modeS hdrsS obs
   | ["lc", id, mode, n, plans, reqs, log] =>
     match parseMode mode, parseLog log, (kv "reqs" [reqs]).bind parseReqs,
           (kv "n" [n]).bind String.toNat?, kv "plans" [plans],
